@@ -54,5 +54,22 @@ CHECKS = {
         "ref": "DESIGN.md §3 C11", "note": TB,
         "technique": "explicit-state model checking: exhaustive network x subspace enumeration against a reference least fixed point",
     },
+    "C04": {
+        "text": "Explicit-state search whose transition function is the real SuccessionDiagram API: BFS over the plain expansion "
+                "alphabet (all start nodes, limit values, targets) to closure (true reachability of canonical diagram states) on "
+                "the kernel and 2-variable networks with small diagrams, and all histories up to a depth bound on larger ones and "
+                "on 3-variable universes; in every reached state every expanded node must have exactly the reference successors "
+                "and motifs, and appending expand_bfs() must give the fresh full diagram.",
+        "ref": "DESIGN.md §3 C04", "note": TB + " Canonical state = every field biobalm reads (ids, edge order, caches).",
+        "technique": "explicit-state model checking of API-call histories (BFS with canonical state hashing, closure or depth bound) on the real implementation",
+    },
+    "C20": {
+        "text": "The same history exploration (plain alphabet to closure / depth 2, full alphabet incl. skip, scc, block shortcuts, "
+                "reclaim, pickle at depth 2) evaluates depth = longest root path, contiguous ids and find_node on all 3^n spaces "
+                "in every reached state, is_subgraph / is_isomorphic on all ordered pairs of reached states, and parses summary() "
+                "after build() back against the reference attractors on the input universes.",
+        "ref": "DESIGN.md §3 C20", "note": TB,
+        "technique": "explicit-state model checking of API-call histories plus exhaustive input-universe enumeration",
+    },
 }
 NOT_CLAIMED = {f"C{i:02d}": "not claimed yet: check under construction (see DESIGN.md §9 for the build order)" for i in range(1, 21)}
